@@ -152,6 +152,11 @@ FIXED = [
     ("C10", "cc97ad1", "lookbehind and search over long subjects were never polled: unbounded work under any time limit"),
     ("C16", "7e34772", "`'a,b,c'.split(',', -Infinity)` returned 3 pieces and a limit of 2**32+1 all of them (ToUint32: 0 and 1); `'abcabc'.lastIndexOf('c', 'x')` was -1 (a NaN position means the end)"),
     ("C17", "7e34772", "`[1,2,1].lastIndexOf(1, undefined)` was 2 (a fromIndex that is present converts to 0: the answer is 0)"),
+    ("C19", "bd55290", "`JSON.parse('9007199254740993') === 9007199254740992` was false and `JSON.parse('9007199254740993') % 2` was 1: integer tokens became host ints of unlimited precision; a token of 5000 digits was a SyntaxError instead of Infinity"),
+    ("C06", "bd55290", "a Number made by JSON.parse from a long integer token kept digits no double has: results depended on the int representation"),
+    ("C04", "bd55290", "a numeric literal, `Number('1' + '0'.repeat(5000))`, `+s`, `isNaN(s)`, `'abc'[s]`, `a[s]` with 5000 digits left eval as the host's ValueError (int() refuses more than 4300 digits)"),
+    ("C18", "db59e6b", "`parseFloat('1e')`, `parseFloat('1.5e+')` and `parseFloat('1e5.5')` were NaN (the longest valid prefix is 1, 1.5, 100000); `Number.parseFloat('Infinity')` was NaN while `parseFloat('Infinity')` was Infinity"),
+    ("C18", "964556a", "`parseInt('10', 4294967312)` was NaN (ToInt32 of the radix is 16) and `parseInt('10', Infinity)` was NaN (radix 0 means 10)"),
 ]
 
 
